@@ -1,25 +1,41 @@
-"""setup_cmd: build everything that can be built ahead of time (offline)."""
+"""setup_cmd: build, offline, everything the registered checks need (and only that):
+library objects from /repo with hooks on, regenerated Lean files, the Lean targets and drivers of every
+registered property, and their harnesses."""
+import importlib
 import os
 import sys
+
 import vlib
 
 
 def main():
     lib, info = vlib.build_lib("asan")
     print("library:", info)
-    ok, log, s = vlib.build_lean(None)
-    print("lake build: ok=%s %.1fs" % (ok, s))
-    if not ok:
-        print(log[-3000:])
-        return 1
-    hd = os.path.join(vlib.VERIF, "harness")
-    for f in sorted(os.listdir(hd)):
-        if f.startswith("h_") and f.endswith((".c", ".cpp")):
-            name = f.rsplit(".", 1)[0]
+    ready = open(os.path.join(vlib.VERIF, "tools", "props", "READY")).read().split()
+    targets, harnesses = [], []
+    for pid in ready:
+        m = importlib.import_module("props." + pid)
+        for g in getattr(m, "GENERATORS", []):
             try:
-                vlib.build_harness(name)
-                print("harness", name, "ok")
-            except vlib.BuildError as e:
-                print("harness", name, "FAILED", e)
-                return 1
+                print("generated:", pid, g())
+            except Exception as e:  # an extraction failure is reported by the check itself
+                print("generator failed:", pid, e)
+        for t in m.LEAN_TARGETS:
+            if t not in targets:
+                targets.append(t)
+        for st in m.STREAMS:
+            if (st.harness, st.flavour) not in harnesses:
+                harnesses.append((st.harness, st.flavour))
+    ok, log, s = vlib.build_lean(targets)
+    print("lake build %d targets: ok=%s %.1fs" % (len(targets), ok, s))
+    if not ok:
+        print(log[-4000:])
+        return 1
+    for name, flavour in harnesses:
+        try:
+            vlib.build_harness(name, flavour)
+            print("harness", name, flavour, "ok")
+        except vlib.BuildError as e:
+            print("harness", name, "FAILED", e)
+            return 1
     return 0
